@@ -41,6 +41,33 @@ def literal_signs(fx, tok):
 
 
 def run(fx, rep):
+    # ---------------- R5 literal payloads reach the evaluator unchanged
+    rep.rule('R5', 'a literal node evaluates to the Value of the same kind with the payload unchanged (Val -> Value table, no casts)')
+    vb = fx.bodies.get('<cel_interpreter::objects::Value as std::convert::From<cel_parser::reference::Val>>::from')
+    if vb is None:
+        raise F.Lost('From<Val> for Value not found')
+    rep.analysed(vb)
+    vpv = F.Prov(vb)
+    want5 = {'Int': 'Int', 'UInt': 'UInt', 'Double': 'Float', 'Boolean': 'Bool', 'String': 'String', 'Bytes': 'Bytes'}
+    got5 = {}
+    for _, _, st in vb.stmts():
+        if st['k'] == 'Assign' and st['rv']['k'] == 'Aggregate' and (st['rv'].get('adt') or '').endswith('objects::Value') and st['rv']['ops']:
+            for x in vpv.of_operand(st['rv']['ops'][0]):
+                y = x
+                while y[0] == 'call' and len(y[2]) == 1 and y[1] in ('std::sync::Arc::new', 'std::convert::Into::into', 'std::convert::From::from'):
+                    y = y[2][0]
+                src = y[1][2] if y[0] == 'f' and y[1][0] == 'dc' and y[1][1] == ('param', 1) else '? ' + F.term_str(x)[:50]
+                got5.setdefault(src, set()).add(st['rv']['variant'])
+    c5 = [st for _, _, st in vb.stmts() if st['k'] == 'Assign' and st['rv']['k'] in ('Cast', 'BinaryOp', 'UnaryOp') and st['rv'].get('kind') != 'PtrToPtr' and st['rv']['k'] != 'BinaryOp']
+    c5 = [st for st in c5 if st['rv']['k'] == 'Cast' and st['rv']['kind'] in ('IntToInt', 'IntToFloat', 'FloatToInt', 'FloatToFloat') or st['rv']['k'] == 'UnaryOp' and st['rv']['op'] == 'Neg']
+    x5 = sorted({F.norm_callee(t) or '?' for bi, t in vb.calls() if (F.norm_callee(t) or '') not in ('std::sync::Arc::new', 'std::clone::Clone::clone', 'std::convert::Into::into', 'std::convert::From::from')})
+    c5 = c5 + x5
+    rep.check({k: sorted(v) for k, v in got5.items()} == {k: [v] for k, v in want5.items()} and not c5, 'R5', 'literal-value-table', vb.loc(), 'Val::X(p) -> Value::X(p) for the six payload kinds',
+              'From<Val> for Value maps %s%s, expected %s with the payload unchanged' % ({k: sorted(v) for k, v in got5.items()}, ' through casts/negation' if c5 else '', want5))
+    ev = fx.body('cel_interpreter::objects::Value::resolve')
+    epv = F.Prov(ev)
+    lits = [t for bi, t in ev.calls() if 'From<cel_parser::reference::Val>' in (F.resolved_callee(t) or '') or ((F.norm_callee(t) or '').endswith('Into::into') and 'reference::Val' in t['arg_tys'][0])]
+    rep.check(len(lits) >= 1, 'R5', 'evaluator-uses-the-table', ev.loc(), 'Expr::Literal(v) => v.clone().into()', 'the evaluator does not convert literal nodes with From<Val> for Value')
     from .report import producer_rules
     producer_rules(fx, rep, 'producer rule: numeric literal nodes come only from their literal visitors; no constant folding elsewhere in the parser (C04 R5/R7/R9)', [('c04', 'C04', '^(R7/visit_(Int|Uint|Double|ConstantLiteral|Negate)/|R5/|R9/)')], 8)
     rep.rule('R1', 'float->int casts are dominated by NaN-excluding half-open range guards')
